@@ -50,6 +50,9 @@ type Clause struct {
 	Line  int
 	When  *Expr
 	hit   bool // before/after/loop clauses: a matching site was seen while executing the function
+	// Checked: an `ensures` written `proves`: in a trusted function it is still proved from the body (ghost-only run:
+	// safety assumed), and assumed by callers like every postcondition
+	Checked bool
 }
 
 type Block struct {
@@ -229,6 +232,11 @@ func loadContracts(path string) (*Contracts, error) {
 				return nil, fail(fmt.Errorf("clause %q outside a block", word))
 			}
 			cl := &Clause{Kind: word, Line: l.no, Text: rest}
+			if word == "proves" {
+				word = "ensures"
+				cl.Kind = "ensures"
+				cl.Checked = true
+			}
 			switch word {
 			case "requires", "assume", "decreases", "acquires", "releases", "unfold":
 				if k := strings.Index(rest, " when "); k >= 0 && (word == "releases" || word == "acquires") {
